@@ -14,6 +14,7 @@
 #include <memory>
 #include <system_error>
 #include <sys/epoll.h>
+#include <mutex>
 #include <vector>
 
 namespace iora
@@ -162,7 +163,13 @@ public:
 
   BatchProcessingStats getStats() const
   {
-    auto stats = stats_;
+    // stats_ is updated by the I/O thread after every batch while any thread
+    // may ask for a snapshot (Transport::getStats()).
+    BatchProcessingStats stats;
+    {
+      std::lock_guard<std::mutex> lock(statsMutex_);
+      stats = stats_;
+    }
 
     if (stats.totalBatches > 0)
     {
@@ -181,6 +188,7 @@ public:
 
   void resetStats()
   {
+    std::lock_guard<std::mutex> lock(statsMutex_);
     stats_ = {};
     lastAdjustment_ = std::chrono::steady_clock::now();
   }
@@ -223,6 +231,7 @@ private:
 
   void updateStats(int eventCount, std::chrono::microseconds processingTime)
   {
+    std::lock_guard<std::mutex> lock(statsMutex_);
     stats_.totalBatches++;
     stats_.totalEvents += eventCount;
     stats_.totalBatchTime += processingTime;
@@ -278,6 +287,7 @@ private:
       // Increase by 25% or at least 1
       std::size_t increase = std::max(1UL, currentBatchSize_ / 4);
       currentBatchSize_ = std::min(config_.maxBatchSize, currentBatchSize_ + increase);
+      std::lock_guard<std::mutex> lock(statsMutex_);
       stats_.adaptiveAdjustments++;
     }
     else if (shouldDecrease && currentBatchSize_ > 1)
@@ -285,6 +295,7 @@ private:
       // Decrease by 25% but at least keep 1
       std::size_t decrease = std::max(1UL, currentBatchSize_ / 4);
       currentBatchSize_ = std::max(1UL, currentBatchSize_ - decrease);
+      std::lock_guard<std::mutex> lock(statsMutex_);
       stats_.adaptiveAdjustments++;
     }
   }
@@ -292,7 +303,8 @@ private:
 private:
   BatchProcessingConfig config_;
   std::vector<epoll_event> events_;
-  BatchProcessingStats stats_;
+  BatchProcessingStats stats_;         // guarded by statsMutex_
+  mutable std::mutex statsMutex_;
 
   // Adaptive sizing state
   std::size_t currentBatchSize_{0};
